@@ -94,8 +94,25 @@ pub struct Summary {
     pub skipped: Option<u32>,
 }
 
+#[derive(Clone, Debug, Default, PartialEq, Eq, Serialize, Deserialize)]
+pub struct CliInfo {
+    /// the private $TMPDIR of the scrut process
+    pub tmp_root: String,
+    /// where the documents were written
+    pub doc_root: String,
+    pub work_dir: Option<String>,
+    pub args: Vec<String>,
+    /// nonce -> 1-based line of its `$` line in its document
+    pub dollar_line: std::collections::BTreeMap<String, usize>,
+    /// document path (as in the scenario) -> path as passed / as scrut sees it
+    pub doc_path: std::collections::BTreeMap<String, String>,
+}
+
 #[derive(Clone, Debug, Default, Serialize, Deserialize)]
 pub struct Observation {
+    pub cli: Option<CliInfo>,
+    /// Lib tier: listing of the run's root right after execute_all returned
+    pub fs_exit: Vec<(String, Vec<String>)>,
     pub docs: Vec<DocObs>,
     pub log: Vec<LogEntry>,
     pub tape: Vec<u64>,
@@ -115,6 +132,8 @@ pub struct Observation {
     pub summary: Summary,
     /// listing of the watched roots after the process is gone and orphans have drained
     pub fs_after: Vec<(String, Vec<String>)>,
+    /// peer-created paths that still existed when the harness looked (before its own clean-up)
+    pub peer_survivors: Vec<String>,
     /// harness-level problem (not a property violation): the run cannot be judged
     pub harness_error: Option<String>,
 }
